@@ -105,4 +105,4 @@ def e_case(c):
                                                  "noise" if m.n is not None else "clean", c["gv"]["form"], "big" if N > 1000 else "small", c["x"]["sig"]["dt"]]}
 
 
-PARTS = [Part("transforms", e_case, s_case(), quick=1500, thorough=6000, shards=16, quick_shards=2, rule=RULE[-120:])]
+PARTS = [Part("transforms", e_case, s_case(), quick=1500, thorough=30000, shards=16, quick_shards=2, rule=RULE[-120:])]
